@@ -72,6 +72,7 @@ fn signature_texts() -> Vec<String> {
                 contracts: vec![vec![i]],
                 spdx: false,
                 blank_lines: vec![1],
+                clash: false,
             }));
         }
     }
